@@ -1,4 +1,5 @@
 import GomlVerif.Lemmas.GoCompLink
+import GomlVerif.Lemmas.GoCompScope
 import GomlVerif.Props.Dce
 /-!
 # The Go back end (`go/compile.rs`): theorems about its model `Model/GoCompile.lean`
@@ -19,7 +20,11 @@ shared dump does).
 * **T3 `compile_order`** — the statements of `let x = v in body` are those of `v` followed by those
   of `body`, and the Go world after the first part is the `Sem` world after `v`: nothing of `body`
   runs before `v` is complete, and when `v` panics nothing of `body` runs at all.
-* **T2 `compile_wellformed_partial`** — see the statement.
+* **T2 `compile_wellformed`** — the Go function compiled from a fragment function obeys Go's rules
+  for locals (`scopeErrs = []`: every local declared before use, nothing redeclared or shadowed) and
+  lies in the shape contract of the DCE theorems; hence (`dce_fn_scope_sound`) after dead-code
+  elimination it still does and no local is left unused.  The typing part of `Go.check` is not proved
+  (`Go.Sem` is untyped; typing stays `./check C02`'s oracle on the real output).
 
 What is missing for the full property (C01 for the back end): the fragment (tuples, structs,
 enums / `switch`, `Ref`, arrays, `Vec`, closures, `dyn`, `go`, floats are outside — those
@@ -145,5 +150,118 @@ theorem compile_preserves_run (env : Env) (file : AFile) (n0 : Nat) (G : List St
       rcases hdef with hd | ⟨k, hd⟩
       · exact absurd (congrArg String.toList hd) (by simp)
       · exact absurd (congrArg String.toList hd) (by simp)
+
+/-! ## statement level (what T1 is built from) -/
+
+/-- the hypotheses of the statement-level simulation at a program point, bundled: `e` is in the
+    fragment under the context `Γ`, the environments and worlds are related, the Go names `S` is
+    about to declare are new, the assignment target is a declared Go variable -/
+structure Ready (env : Env) (file : AFile) (G : List String) (Bad : List String) (m : Mode) (st : St) (e : AExpr)
+    (Γ : Ctx) (ρ : Sem.Env) (w : World) (gρ : GEnv) (gw : GWorld) : Prop where
+  frag : fragA env file G Γ e = true
+  envs : EnvRel Γ ρ gρ
+  worlds : WRel w gw
+  names : GInv Bad (compileA env m st e).1 gρ
+  target : TgtOK m Γ gρ (aTy e)
+  blank : "_" ∈ Bad
+  callees : ∀ x, x ∈ calleesA e → vn x ∈ Bad
+
+/-- **T1, statement level**: the statements `compile_aexpr_effect` / `compile_aexpr_assign` emit for
+    an ANF expression of the fragment reproduce every definite `Sem.eval` run of it: same world, and
+    in assign mode the target variable holds the corresponding value afterwards (`Concl`). -/
+theorem compile_stmts_preserve (env : Env) (file : AFile) (n0 : Nat) (G : List String)
+    (hG : closedOK env file n0 G = true) (Bad : List String) (m : Mode) (st : St) (e : AExpr) (Γ : Ctx) (ρ : Sem.Env)
+    (w : World) (gρ : GEnv) (gw : GWorld) (h : Ready env file G Bad m st e Γ ρ w gρ gw) (fuel : Nat) :
+    Concl (goFilePreSt env file n0).1 (compileA env m st e).1 m gρ gw (aTy e)
+      (Sem.eval fuel (progOf file) ρ w e.toExpr) :=
+  (sim_all (link_of_closed hG) fuel).a m st e Γ ρ w gρ gw Bad h.frag h.envs h.worlds h.names h.target h.blank h.callees
+
+/-- **T3 `compile_order`**: the Go statements of `let x = v in body` are those of `v`
+    (`letPrefix`, which does not depend on `body`) followed by those of `body`; the first part runs
+    to completion — leaving exactly the `Sem` world after `v` and the value of `v` in the Go variable
+    of `x` — before any statement of `body`, and when `v` panics the block panics there, whatever
+    follows.  So successive `let`s perform their effects in ANF order and a failure cuts off
+    everything after it. -/
+theorem compile_order (env : Env) (file : AFile) (n0 : Nat) (G : List String)
+    (hG : closedOK env file n0 G = true) (Bad : List String) (m : Mode) (st : St) (x : String) (v : CExpr)
+    (body : AExpr) (ty : Ty) (Γ : Ctx) (ρ : Sem.Env) (w : World) (gρ : GEnv) (gw : GWorld)
+    (h : Ready env file G Bad m st (.letE x v body ty) Γ ρ w gρ gw) (fuel : Nat) :
+    (compileA env m st (.letE x v body ty)).1 =
+        letPrefix env st x v ++ (compileA env m (letBodySt env st x v) body).1 ∧
+    (match Sem.eval fuel (progOf file) ρ w v.toExpr with
+     | .ok vv w1 => ∃ env1 gv gw1,
+         BlockS (goFilePreSt env file n0).1 gρ gw (letPrefix env st x v) (.ok (env1, .normal) gw1) ∧ WRel w1 gw1 ∧
+         lookupG env1 (vn x) = some gv ∧ toG vv = some gv
+     | .fail (.panic k) w1 => ∀ rest, ∃ gw1,
+         BlockS (goFilePreSt env file n0).1 gρ gw (letPrefix env st x v ++ rest) (.fail (.panic k) gw1) ∧ WRel w1 gw1
+     | _ => True) :=
+  ⟨compileA_let env m st x v body ty,
+   let_order (sim_all (link_of_closed hG) fuel).v (sim_all (link_of_closed hG) fuel).c m st x v body ty Γ ρ w gρ gw Bad
+     h.frag h.envs h.worlds h.names h.blank h.callees⟩
+
+/-- operands keep their ANF order in the emitted expression (`Go.Sem` evaluates `l` before `r`, and
+    call arguments left to right) -/
+theorem compile_order_operands (env : Env) (op : BinOp) (l r : Imm) (ty : Ty) :
+    compileCExpr env (.bin op l r ty) = .bin (gBin op) (goTy ty) (compileImm env l) (compileImm env r) := rfl
+
+/-! ## T2 -/
+
+/-- **T2 `compile_wellformed`**: for a function `f` of a closed set `G`, the compiled Go function
+    `gf` (found in the emitted file under `fnName f.name`)
+    * declares every local before use and never redeclares or shadows one (`scopeErrs = []`, with
+      `D` = its parameters and declarations, initial scope = its parameters),
+    * lies inside the shape contract of the DCE theorems (`shapeOK`),
+    and therefore after `dce_block_with_live` (`Dce.dceBody`) the same scope rules hold and no
+    declared local is unused (`unusedStmts = []`). -/
+theorem compile_wellformed (env : Env) (file : AFile) (n0 : Nat) (G : List String)
+    (hG : closedOK env file n0 G = true) (f : AFn) (hf : f ∈ file) (hfG : f.name ∈ G) :
+    ∃ gf, (goFilePreSt env file n0).1.findFunc (fnName f.name) = some gf ∧
+      Goml.Dce.scopeErrs (Goml.Dce.localsOf gf) (gf.params.map (·.1)) gf.body = [] ∧
+      Goml.Dce.shapeOK gf.body = true ∧
+      Goml.Dce.scopeErrs (Goml.Dce.localsOf gf) (gf.params.map (·.1)) (Goml.Dce.dceBody gf.body) = [] ∧
+      Goml.Dce.unusedStmts (Goml.Dce.dceBody gf.body) = [] := by
+  obtain ⟨st, hfind, hlocal⟩ := (link_of_closed hG).fnGo f hf hfG
+  have hclean := fn_clean hlocal
+  exact ⟨_, hfind, hclean.1, hclean.2, (Goml.Dce.dce_fn_scope_sound _ hclean.1 hclean.2).1,
+    (Goml.Dce.dce_fn_scope_sound _ hclean.1 hclean.2).2⟩
+
+/-! ## non-vacuity: a concrete file inside the fragment -/
+section Examples
+private def t32 : Ty := .int 32 true
+private def litI (v : Int) : Imm := .prim (.int 32 true v) t32
+/-- `fn add(a, b) { a + b }` -/
+private def exAdd : AFn :=
+  { name := "add", params := [("a/0", t32), ("b/1", t32)], ret := t32,
+    body := .ret (.bin .add (.var "a/0" t32) (.var "b/1" t32) t32) }
+/-- `let x = add(1, 2); let t = x > 2; let s = if t {"big"} else {"small"}; while x < 0 { println("never") };`
+    `println(int32_to_string(x) + s)` in ANF -/
+private def exMainBody : AExpr :=
+  .letE "x/2" (.call (.var "add" (.func [t32, t32] t32)) [litI 1, litI 2] t32)
+  (.letE "t10" (.bin .greater (.var "x/2" t32) (litI 2) .bool)
+  (.letE "s/4" (.ite (.var "t10" .bool) (.ret (.imm (.prim (.str "big") .string))) (.ret (.imm (.prim (.str "small") .string))) .string)
+  (.letE "w/5" (.while (.ret (.bin .less (.var "x/2" t32) (litI 0) .bool))
+                  (.ret (.call (.var "string_println" (.func [.string] .unit)) [.prim (.str "never") .string] .unit)) .unit)
+  (.letE "t5" (.call (.var "int32_to_string" (.func [t32] .string)) [.var "x/2" t32] .string)
+  (.letE "t6" (.bin .add (.var "t5" .string) (.var "s/4" .string) .string)
+  (.ret (.call (.var "string_println" (.func [.string] .unit)) [.var "t6" .string] .unit)) .unit) .unit) .unit) .unit) .unit) .unit
+private def exMain : AFn := { name := "main", params := [], ret := .unit, body := exMainBody }
+private def exFile : AFile := [exAdd, exMain]
+
+/-- both functions are in the fragment (file-level conditions, source and Go-side checks) -/
+example : InGoFragment {} exFile 0 exMain ∧ InGoFragment {} exFile 0 exAdd := by
+  constructor <;> (unfold InGoFragment; decide +kernel)
+
+/-- the hypotheses of `compile_preserves_run` hold of it and its `Sem` run is definite -/
+example : closedOK {} exFile 0 (goodFns {} exFile 0) = true ∧ "main" ∈ goodFns {} exFile 0 ∧
+    (Sem.run 200 (progOf exFile)).status = "ok" ∧ (Sem.run 200 (progOf exFile)).out = "3big\n" := by
+  decide +kernel
+
+/-- a function that builds a tuple is outside the fragment (the model still compiles it: the tie
+    covers it, the theorem does not) -/
+private def exTuple : AFn :=
+  { name := "pair", params := [("a/0", t32)], ret := .tuple [t32, t32],
+    body := .ret (.tuple [.var "a/0" t32, .var "a/0" t32] (.tuple [t32, t32])) }
+example : ¬ InGoFragment {} [exTuple] 0 exTuple := by unfold InGoFragment; decide +kernel
+end Examples
 
 end Goml.GoCompileProps
